@@ -241,7 +241,7 @@ theorem styleToDict_idem (s : Str) : styleToDict (styleStr (styleToDict s)) = st
   have := Attrs.styleToDict_render_idem s
   rwa [styleStr_attrs, styleToDict_attrs, styleToDict_attrs] at this
 
-/-! ### the formatter's style parser (uses `pyStrip`) -/
+/-! ### the formatter's style parser (written with `pyStrip` = `strip`) -/
 
 def fmtStep (d : List (Str × Str)) (item : Str) : List (Str × Str) :=
   if item.contains ':' then
@@ -260,16 +260,13 @@ theorem mem_takeWhile {p : Char → Bool} {x : Char} : ∀ {s : Str}, x ∈ s.ta
       · exact List.mem_cons_of_mem _ (mem_takeWhile m)
     · simp at h
 
-theorem fmtStep_eq {d : List (Str × Str)} {item : Str} (hd : (keys d).Nodup) (hi : NoUniWs item) :
+theorem fmtStep_eq {d : List (Str × Str)} (item : Str) (hd : (keys d).Nodup) :
     fmtStep d item = Attrs.styleItem d item := by
   unfold fmtStep Attrs.styleItem
   rw [findColon_while]
   by_cases hm : ':' ∈ item
-  · have h1 : NoUniWs (item.takeWhile (· ≠ ':')) := hi.of_subset (fun c hc => mem_takeWhile hc)
-    have h2 : NoUniWs ((item.dropWhile (· ≠ ':')).drop 1) :=
-      hi.of_subset (fun c hc => Attrs.mem_of_mem_dropWhile (List.mem_of_mem_drop hc))
-    simp only [List.contains_eq_mem, hm, decide_true, if_true]
-    rw [pyStrip_eq h1, pyStrip_eq h2, fset_eq _ _ hd, aset_eq]
+  · simp only [List.contains_eq_mem, hm, decide_true, if_true]
+    rw [pyStrip_eq, pyStrip_eq, fset_eq _ _ hd, aset_eq]
   · simp [hm]
 
 theorem nodup_styleItem {d : List (Str × Str)} (hd : (keys d).Nodup) (item : Str) :
@@ -280,22 +277,20 @@ theorem nodup_styleItem {d : List (Str × Str)} (hd : (keys d).Nodup) (item : St
   | some p => simp only; rw [aset_eq]; exact nodup_dictSet _ _ hd
 
 theorem foldl_fmtStep_eq : ∀ (items : List Str) {d : List (Str × Str)}, (keys d).Nodup →
-    (∀ it ∈ items, NoUniWs it) → items.foldl fmtStep d = items.foldl Attrs.styleItem d
-  | [], _, _, _ => rfl
-  | it :: r, d, hd, hi => by
+    items.foldl fmtStep d = items.foldl Attrs.styleItem d
+  | [], _, _ => rfl
+  | it :: r, d, hd => by
     simp only [List.foldl_cons]
-    rw [fmtStep_eq hd (hi it (List.mem_cons_self ..))]
-    exact foldl_fmtStep_eq r (nodup_styleItem hd it) (fun x hx => hi x (List.mem_cons_of_mem _ hx))
+    rw [fmtStep_eq it hd]
+    exact foldl_fmtStep_eq r (nodup_styleItem hd it)
 
-/-- (4) = (1) on strings without non-ASCII white space. -/
-theorem styleToDict_fmt {v : Str} (h : NoUniWs v) : Fmt.styleToDict v = styleToDict v := by
-  rw [fmt_styleToDict_eq, pyStrip_eq h, ← styleToDict_attrs]
+/-- (4) = (1) on every string. -/
+theorem styleToDict_fmt (v : Str) : Fmt.styleToDict v = styleToDict v := by
+  rw [fmt_styleToDict_eq, pyStrip_eq, ← styleToDict_attrs]
   unfold Attrs.styleToDict
-  refine foldl_fmtStep_eq _ (by simp [keys]) ?_
-  intro it hit
-  exact h.of_subset (fun c hc => Attrs.mem_strip ((Attrs.mem_splitChar hit).2 c hc))
+  exact foldl_fmtStep_eq _ (by simp [keys])
 
-/-! #### `NoUniWs` survives parsing and rendering -/
+/-! #### white space and `lower` -/
 
 theorem pyWs_lowerChar (c : Char) : Fmt.pyWs (lowerChar c) = Fmt.pyWs c := by
   unfold lowerChar
@@ -312,86 +307,13 @@ theorem pyWs_lowerChar (c : Char) : Fmt.pyWs (lowerChar c) = Fmt.pyWs c := by
     exact this.2.symm
   · rfl
 
-theorem NoUniWs.lower {s : Str} (h : NoUniWs s) : NoUniWs (lower s) := by
-  intro c hc
-  unfold AHP.lower at hc
-  rcases List.mem_map.mp hc with ⟨c', hc', e⟩
-  subst e
-  rw [pyWs_lowerChar, Attrs.isWs_lowerChar]
-  exact h c' hc'
-
-theorem NoUniWs.strip {s : Str} (h : NoUniWs s) : NoUniWs (strip s) :=
-  h.of_subset (fun _ hc => Attrs.mem_strip hc)
-
-theorem NoUniWs.append {s t : Str} (hs : NoUniWs s) (ht : NoUniWs t) : NoUniWs (s ++ t) := by
-  intro c hc
-  rcases List.mem_append.mp hc with m | m
-  · exact hs c m
-  · exact ht c m
-
-def CleanMap (m : List (Str × Str)) : Prop := ∀ p ∈ m, NoUniWs p.1 ∧ NoUniWs p.2
-
 theorem mem_dictSet {β : Type} {k : Str} {v : β} {p : Str × β} {d : List (Str × β)}
     (h : p ∈ dictSet d k v) : p = (k, v) ∨ p ∈ d := by
   rw [← aset_eq] at h; exact Attrs.mem_aset h
 
-theorem cleanMap_styleItem {d : List (Str × Str)} (hd : CleanMap d) {item : Str} (hi : NoUniWs item) :
-    CleanMap (Attrs.styleItem d item) := by
-  unfold Attrs.styleItem
-  cases hf : Attrs.findColon item with
-  | none => exact hd
-  | some q =>
-    obtain ⟨a, b⟩ := q
-    have hab := (Attrs.findColon_fst_no_colon hf).2
-    have ha : NoUniWs a := hi.of_subset (fun c hc => by rw [hab]; exact List.mem_append_left _ hc)
-    have hb : NoUniWs b := hi.of_subset (fun c hc => by
-      rw [hab]; exact List.mem_append_right _ (List.mem_cons_of_mem _ hc))
-    intro p hp
-    simp only at hp
-    rw [aset_eq] at hp
-    rcases mem_dictSet hp with e | m
-    · subst e; exact ⟨ha.strip.lower, hb.strip⟩
-    · exact hd p m
-
-theorem cleanMap_foldl : ∀ (items : List Str) {d : List (Str × Str)}, CleanMap d →
-    (∀ it ∈ items, NoUniWs it) → CleanMap (items.foldl Attrs.styleItem d)
-  | [], _, hd, _ => hd
-  | it :: r, _, hd, hi =>
-    cleanMap_foldl r (cleanMap_styleItem hd (hi it (List.mem_cons_self ..)))
-      (fun x hx => hi x (List.mem_cons_of_mem _ hx))
-
-theorem cleanMap_styleToDict {v : Str} (h : NoUniWs v) : CleanMap (styleToDict v) := by
-  rw [← styleToDict_attrs]
-  unfold Attrs.styleToDict
-  refine cleanMap_foldl _ (fun p hp => by cases hp) ?_
-  intro it hit
-  exact h.of_subset (fun c hc => Attrs.mem_strip ((Attrs.mem_splitChar hit).2 c hc))
-
-theorem noUniWs_lit {s : Str} (h : ∀ c ∈ s, c = ';' ∨ c = ' ' ∨ c = ':') : NoUniWs s := by
-  intro c hc
-  rcases h c hc with e | e | e <;> subst e <;> decide
-
-theorem noUniWs_joinWith {sep : Str} (hsep : NoUniWs sep) : ∀ {l : List Str}, (∀ w ∈ l, NoUniWs w) →
-    NoUniWs (joinWith sep l)
-  | [], _ => fun c hc => by simp [joinWith] at hc
-  | [w], h => by simpa [joinWith] using h w (List.mem_cons_self ..)
-  | w :: w' :: r, h => by
-    have ih : NoUniWs (joinWith sep (w' :: r)) := noUniWs_joinWith hsep (fun x hx => h x (List.mem_cons_of_mem _ hx))
-    have : joinWith sep (w :: w' :: r) = w ++ sep ++ joinWith sep (w' :: r) := rfl
-    rw [this]
-    exact ((h w (List.mem_cons_self ..)).append hsep).append ih
-
-theorem noUniWs_styleStr {m : List (Str × Str)} (h : CleanMap m) : NoUniWs (styleStr m) := by
-  unfold styleStr
-  refine noUniWs_joinWith (noUniWs_lit (by decide)) ?_
-  intro w hw
-  rcases List.mem_map.mp hw with ⟨p, hp, e⟩
-  subst e
-  exact ((h p hp).1.append (noUniWs_lit (by decide))).append (h p hp).2
-
 /-- the formatter's `styleToDict(str(styleToDict(v)))` is model (1)'s `styleToDict v`. -/
-theorem styleToDict_fmt_twice {v : Str} (h : NoUniWs v) :
+theorem styleToDict_fmt_twice (v : Str) :
     Fmt.styleToDict (Fmt.styleStr (Fmt.styleToDict v)) = styleToDict v := by
-  rw [styleToDict_fmt h, styleStr_fmt, styleToDict_fmt (noUniWs_styleStr (cleanMap_styleToDict h)), styleToDict_idem]
+  rw [styleToDict_fmt, styleStr_fmt, styleToDict_fmt, styleToDict_idem]
 
 end AHP.AttrStores
